@@ -35,6 +35,7 @@ float_ok = z3.Function("float_ok", Val, z3.BoolSort())
 float_of = z3.Function("float_of", Val, z3.RealSort())
 utf8_enc = z3.Function("utf8_enc", S, S)                     # str -> bytes (latin-1 carried string)
 utf8_ok = z3.Function("utf8_ok", S, z3.BoolSort())           # bytes decodable
+format_spec_of = z3.Function("format_spec_of", S, S, S)          # format(text of value, spec) -> str
 utf8_dec = z3.Function("utf8_dec", S, S)
 utf8_dec_lenient = z3.Function("utf8_dec_lenient", S, S, S)    # (errors mode, bytes) -> str
 isdigit_of = z3.Function("isdigit_of", S, z3.BoolSort())
